@@ -184,8 +184,17 @@ func (l letter) line(N, li, pos int) string {
 	return fmt.Sprintf("%s%s=%d%s:%s", keyCmds[l.key], keyTargets[l.key], l.idx, hdr, base64.StdEncoding.EncodeToString(payload))
 }
 
+var minimalAlphabet = false
+
 func alphabet(N int, reduced bool) []letter {
 	var a []letter
+	if minimalAlphabet {
+		a = append(a, letter{key: 0, idx: 0})
+		for i := 1; i <= N+1; i++ {
+			a = append(a, letter{key: 0, idx: i})
+		}
+		return append(a, letter{key: 1, idx: 0}, letter{key: 1, idx: 1}, letter{pass: "ping"})
+	}
 	for key := 0; key < 4; key++ {
 		if reduced && key == 3 {
 			continue
@@ -487,8 +496,16 @@ func genC05(tier string, rng *Rng) {
 	// (i) exhaustive small scopes
 	for N := 0; N <= 2; N++ {
 		if thorough {
-			exhaustive(N, 5, false)
-			exhaustive(N, 6, true)
+			if N == 0 {
+				exhaustive(N, 5, false)
+			} else {
+				exhaustive(N, 4, false)
+			}
+			if N < 2 {
+				exhaustive(N, 6, true)
+			} else {
+				exhaustive(N, 5, true)
+			}
 		} else {
 			if N < 2 {
 				exhaustive(N, 4, false)
@@ -499,7 +516,9 @@ func genC05(tier string, rng *Rng) {
 		}
 	}
 	if thorough {
+		minimalAlphabet = true
 		exhaustive(1, 7, true)
+		minimalAlphabet = false
 	}
 	// (ii) clean runs: every image length 0..700
 	for n := 0; n <= 700; n++ {
